@@ -375,6 +375,15 @@ func (conn *obfs4Conn) clientHandshake(nodeID *ntor.NodeID, peerIdentityKey *nto
 		conn.encoder = framing.NewEncoder(okm[:framing.KeyLength])
 		conn.decoder = framing.NewDecoder(okm[framing.KeyLength:])
 
+		// Frames that arrived along with the server handshake (the inline
+		// PRNG seed, and possibly payload) are already in the receive
+		// buffer.  Decode them now, as Read() only decodes after it has
+		// consumed more data off the network, and would otherwise block
+		// even though there is payload to deliver.
+		if err = conn.decodePackets(); err != nil && !errors.Is(err, framing.ErrAgain) {
+			return err
+		}
+
 		return nil
 	}
 }
